@@ -35,6 +35,8 @@ CLAIMED = {
          "decides the structural clauses C15-PAIR/INV/SAME/WRITERS (edit/accumulator pairing, inverse updates, same term functions over all squares, writers), not numeric equality as such"),
  "C16": ("expression-shape check of the tapered blend, mirrored table construction (symbolic builders, numerically evaluated index maps), constant interval bound over evaluated parameter tables",
          "decides the clauses C16-BLEND/MIRROR/BOUND (weights w and MAX-w of one clamped w, black tables = negated rank-flipped white tables from the same definitions, per-colour terms combined with the matching sign, evaluation bound strictly inside the mate threshold), not equality of mirrored evaluations for all positions"),
+ "C17": ("inverse letter tables by symbolic walk, numeric agreement of evaluated castling constant tables, guard dominance in expect_matching and the position handler",
+         "decides the text and table clauses C17-LETTERS/CASTLE/MATCH, not that the resulting position is the rules' position for every game (= C01 and C02 and C06)"),
  "C19": ("guard dominance on probe/store, index provenance, decision-table enumeration of the replacement predicate",
          "decides the structural clauses C19-KEY/POLICY/IDX/CLEAR/ZERO/GEN/WRITERS/PREF, not arbitrary operation sequences"),
 }
